@@ -5,7 +5,7 @@
 #include <math.h>
 
 #define PAGE 4096
-#define DATA_PAGES 64
+#define DATA_PAGES 1100
 static unsigned char *region, *data_lo, *data_hi;
 static void region_init(void)
 {
@@ -107,7 +107,7 @@ static void failinject(cJSON *t, int fmt, int cfg)
 static int do_case(const jv *line)
 {
     const jv *tb = jv_at(line, 3); int fmt = (int)jv_int(jv_at(line, 2)); long thr = jv_int(jv_at(line, 4));
-    static char expect[1 << 20]; size_t L = tb->n, k; cJSON *t; int cfg; char *ref_text = NULL; uint64_t h0;
+    static char expect[1 << 22]; size_t L = tb->n, k; cJSON *t; int cfg; char *ref_text = NULL; uint64_t h0;
     if (L + 1 > sizeof(expect)) return -1;
     for (k = 0; k < L; k++) expect[k] = (char)jv_int(tb->e[k]);
     expect[L] = 0;
@@ -186,8 +186,9 @@ static int do_case(const jv *line)
         for (tv = 0; tv < (fmt ? 4 : 1); tv++)
         for (n = 0, prev_ok = 0; n <= (long)RL + 16; n += (RL > 20000 && n > 300 && n < (long)RL - 24) ? 8191 : (RL > 200 && n > 4 && n < (long)RL - 24) ? 13 : 1) {
             vd_tick();
-            unsigned char *buf = data_hi - n; int r; long i;
-            memset(data_lo, 0xEE, DATA_PAGES * PAGE);
+            unsigned char *buf = data_hi - n, *lo; int r; long i;
+            if (buf < data_lo + PAGE) break;          /* larger than the guarded area */
+            lo = buf - PAGE; memset(lo, 0xEE, (size_t)(data_hi - lo));
             if (!VD_TRY()) { al_in_call = 0; viol("*", "cJSON_PrintPreallocated(n = %ld, text length %zu): memory fault at %p (buffer %p..%p)", n, RL, (void*)vd_fault_addr, (void*)buf, (void*)data_hi); break; }
             al_in_call = 1; al_window(0);
             r = cJSON_PrintPreallocated(t, (char*)buf, (int)n, vb_truthy(fmt, (unsigned long)tv)); prealloc_calls++;
